@@ -145,6 +145,15 @@ def scan(text):
     if len(words) == 1 and not line.endswith(';'):
       j = i + 1
       while j < n and not strip_comment(lines[j]).strip(): j += 1
+      # `Mod <newline> inst <newline> (`: white space is white space (a module name that ends in a newline)
+      if j < n and len(strip_comment(lines[j]).split()) == 1 and not strip_comment(lines[j]).strip().startswith('#('):
+        j2 = j + 1
+        while j2 < n and not strip_comment(lines[j2]).strip(): j2 += 1
+        if j2 < n and strip_comment(lines[j2]).strip() == '(':
+          iname = strip_comment(lines[j]).strip()
+          cur['insts'].append((words[0], iname)); cur['ids'].append(iname)
+          while j2 < n and strip_comment(lines[j2]).strip() != ');': j2 += 1
+          i = j2 + 1; continue
       if j < n and strip_comment(lines[j]).strip().startswith('#('):
         while j < n and not re.match(r'^\)\s*(\S+)$', strip_comment(lines[j]).strip()): j += 1
         if j >= n: raise ScanError(f'parametrised instantiation of {words[0]} not understood at line {i+1}')
